@@ -197,7 +197,8 @@ def gen_cases(rng, quick, mult=1):
                 kk = kind if (c == 0 or kind == 'single') else rng.choice([k for k in kinds if k != 'single'])
                 chans.append(gen_channel(rng, kk, n))
             cases['w'].append({'q': 'w', 'bits': p, 'kind': kind, 'w': chans,
-                               'shape4': rng.random() < 0.3})
+                               'shape4': rng.random() < 0.3,
+                               'layout': rng.choice(['channels_last', 'sliced', 'transposed']) if t % 5 == 4 else None})
     for p in SWEEP_BITS:
         for k in ([-20, -3, 0, 5] if quick else [-29, -20, -11, -3, -1, 0, 1, 5, 6]):
             if (2 ** p - 1) * 2.0 ** (k - 1) > 2.0 ** 13:
@@ -279,6 +280,26 @@ def gen_cases(rng, quick, mult=1):
 
 
 # ----------------------------------------------------------------------------- real side
+def apply_layout(w, layout):
+    """the same values in a non-contiguous float32 tensor: a channels_last conv weight (what
+    model.to(memory_format=torch.channels_last) produces), a strided slice of a wider tensor, a transposed buffer"""
+    import torch
+    if not layout:
+        return w
+    if layout == 'channels_last':
+        if w.dim() != 4:
+            w = w.view(w.shape[0], -1, 1, 1) if w.shape[1] % 2 else w.view(w.shape[0], w.shape[1] // 2, 2, 1)
+        return w.contiguous(memory_format=torch.channels_last)
+    flat = w.reshape(w.shape[0], -1)
+    if layout == 'sliced':
+        big = torch.zeros(flat.shape[0], 2 * flat.shape[1])
+        big[:, ::2] = flat
+        return big[:, ::2]
+    if layout == 'transposed':
+        return flat.t().contiguous().t()
+    raise ValueError(layout)
+
+
 def real_weight(case):
     import torch
     from plinio.methods.mps.quant.quantizers import MinMaxWeight
@@ -286,11 +307,12 @@ def real_weight(case):
     w = torch.tensor(chans, dtype=torch.float32)
     if case.get('shape4') and w.shape[1] % 3 == 0:
         w = w.view(w.shape[0], w.shape[1] // 3, 3, 1)
+    w = apply_layout(w, case.get('layout'))
     q = MinMaxWeight(p, w.shape[0], dequantize=False)
-    n = q(w.clone())
+    n = q(w if case.get('layout') else w.clone())
     s = q.scale
     qd = MinMaxWeight(p, w.shape[0], dequantize=True)
-    fq = qd(w.clone())
+    fq = qd(w if case.get('layout') else w.clone())
     sd = qd.scale
     cout = w.shape[0]
     return {'n': n.reshape(cout, -1).tolist(), 'fq': fq.reshape(cout, -1).tolist(),
@@ -629,7 +651,11 @@ def small(case, **kw):
 def oracle_weight(chk, case, real):
     p = case['bits']
     if 'error' in real:
-        chk.violation('C13:MinMaxWeight:raises', 'MinMaxWeight raised %s' % real['error'], case)
+        if case.get('layout'):
+            chk.violation('C13:MinMaxWeight:non-contiguous-input',
+                          'MinMaxWeight raises on a non-contiguous float32 tensor (%s): %s' % (case['layout'], real['error']), case)
+        else:
+            chk.violation('C13:MinMaxWeight:raises', 'MinMaxWeight raised %s' % real['error'], case)
         return
     for ci, ch in enumerate(case['w']):
         n, fq, s, sd = real['n'][ci], real['fq'][ci], real['s'][ci], real['sd'][ci]
@@ -904,7 +930,8 @@ def corr_bias(chk, sk, case, real, ans):
 def run(chk):
     from .. import common
     chk.rule = ('weights: bits {0,2..8} x seeded float32 channels (kinds rand/mixed/negmax/levels/const/zero/'
-                'single; non-zero magnitudes in [2^-30, 2^13]; 1-4 channels, 1-27 elements, 2D and 4D) + '
+                'single; non-zero magnitudes in [2^-30, 2^13]; 1-4 channels, 1-27 elements, 2D and 4D; one in five as a '
+                'non-contiguous tensor: channels_last, strided slice, transposed buffer) + '
                 'exhaustive sweep for bits {2,3,4,8} x power-of-two scales (every multiple of scale/4 in range '
                 'and +-1 ulp around every rounding boundary); activations: bits 2..8 x clip {0.05..1000 + random} '
                 'x inputs below 0 / in range / on level boundaries / at, next to and above clip + exhaustive sweep '
